@@ -208,8 +208,33 @@ def r12_3(ctx):
         ctx.check(ok, R, key + '|' + v, b.loc(s['sp']), 'Source::%s -> %s::new(gradient, ti.then(transform), payload in order, spread, alpha)' % (v, ty),
                   'the %s arm does not build %s::new(gradient, &ti.then(&transform), %sspread, alpha) from its own payload slot by slot: %s' % (v, ty, ''.join('payload %d, ' % k for k in mids), fmt(b, p)))
     ctx.floor(R, 'gradient arms of choose_shader', n, 4)
+    # ... and every gradient source reaches its gradient shader: no path from the dispatch on the source kind to the
+    # return bypasses the construction (e.g. a "single stop -> solid colour" shortcut that skips the colour table)
+    ms = [m for m in matches(ctx, b, 'draw_target::Source') if strip_all(m.scrut) in (('param', 2), ('deref', ('param', 2)))]
+    ms.sort(key=lambda m: -len(m.arms))
+    if ctx.check(bool(ms), R, key + '|dispatch', b.loc(), 'dispatch on the source kind found', 'cannot find the match on the source kind in choose_shader (fail closed)'):
+        m0 = ms[0]
+        by_variant = {}
+        for bi, s2, t in storage_aggs(ctx, b):
+            by_variant.setdefault(t[3], set()).add(bi)
+        for v in table:
+            tgt = m0.arms.get(v)
+            if tgt is None:
+                ctx.fail(R, key + '|%s reaches its shader' % v, b.loc(), 'the dispatch has no arm for Source::%s' % v)
+                continue
+            okp, pth = an.cfg.must_pass_through(tgt, by_variant.get(v, set()))
+            ctx.check(okp and bool(by_variant.get(v)), R, key + '|%s reaches its shader' % v, b.loc(), 'every path for Source::%s builds %s' % (v, table[v][0]),
+                      'a Source::%s can leave choose_shader without its %s being built (blocks %s): some inputs (e.g. gradients with a single stop) take a shortcut that bypasses the gradient colour table — its premultiplication, alpha scaling and spread handling' % (v, table[v][0], pth))
+
+
+def _r18_1b(ctx):
+    import props.c18 as c18
+    c18.r18_1b(ctx)
+
+
+_r18_1b.__name__ = 'r18_1b'
 
 
 def run(ctx):
     import engine
-    engine.run_rules(ctx, [r12_1, r12_2, r12_3, dt.r03_5, dt.r02_6])
+    engine.run_rules(ctx, [r12_1, r12_2, r12_3, dt.r03_5, dt.r02_6, _r18_1b])
